@@ -189,7 +189,7 @@ Pick(seq) == seq[RandomElement(1..Len(seq))]
 RndSub(S) == {x \in S : RandomElement({TRUE, FALSE})}
 StW  == << "A", "S", "S", "S", "P", "P", "P", "B", "B", "M", "M" >>
 UkW  == << "none", "none", "none", "none", "spent", "inval", "anchor", "inherited" >>
-AnsW == << "sat", "sat", "sat", "sat", "sat", "notyet", "spent", "inval", "anchor", "expired" >>
+AnsW == << "sat", "sat", "sat", "sat", "sat", "notyet", "notyet", "spent", "inval", "anchor", "expired" >>
 Ops  == << "advance", "advance", "advance", "advance", "advance", "advance", "advance", "advance", "advance",
            "advance", "advance", "advance", "mark_broadcast", "mark_broadcast", "mark_broadcast", "mark_broadcast",
            "mark_mined", "mark_mined", "mark_mined", "prove", "prove", "prove", "prove", "report", "sign",
@@ -203,7 +203,7 @@ RawDraw(salt) ==
      estk |-> RandomElement(1..6), asok |-> RandomElement(1..5),
      ans |-> [i \in Tx |-> Pick(AnsW)], mnd |-> [i \in Tx |-> RandomElement(1..6)], sel |-> RndSub(Tx),
      \* raw material of a reset
-     pol |-> RandomElement(1..12), pst |-> RandomElement({"failed", "superseded", "cancelled"}),
+     fresh |-> RandomElement(1..3), pol |-> RandomElement(1..12), pst |-> RandomElement({"failed", "superseded", "cancelled"}),
      pct |-> RandomElement(PctSet), tol |-> RandomElement(TolSet), cv |-> [i \in Tx |-> RandomElement(CvSet)],
      rows |-> [i \in Tx |-> [kind |-> RandomElement(KindSet), deps |-> {d \in 1..(i - 1) : RandomElement(1..3) = 1}, st |-> Pick(StW),
                              mh |-> RandomElement(HSet), sched |-> RandomElement(SchedSet),
@@ -214,7 +214,12 @@ RawDraw(salt) ==
 \* any consistent migration state: rows normalised, the chain-derived status follows the rows
 CanonState(raw) ==
     LET rows == [i \in Tx |->
-                   LET w == raw.rows[i]
+                   LET w0 == raw.rows[i]
+                       \* one reset in three is a freshly committed migration: every row pre-signed
+                       \* (or awaiting its external signature), nothing marked, nothing reported
+                       w  == IF raw.fresh = 1
+                             THEN [w0 EXCEPT !.st = IF w0.repk = 1 /\ w0.uk # "none" THEN "A" ELSE "S", !.uk = "none", !.repk = 2]
+                             ELSE w0
                        uk == IF w.st = "M" THEN "none" ELSE w.uk
                    IN  [kind |-> w.kind, deps |-> w.deps, st |-> w.st,
                         mh |-> IF w.st = "M" THEN w.mh ELSE NoH,
